@@ -319,7 +319,15 @@ def r5(ctx):
     the source list), never the source list itself — decided on the value of the returned object's `regions` field."""
     m = ctx.model
     ci = m.cls('Regions')
-    for name, args in (('copy', []), ('__getitem__', [Obj('slice', {}, 'index')])):
+    if m.method(ci, '__copy__') is None:
+        # the default protocol of the copy module makes a new object with a (shallow) copy of the instance dictionary:
+        # the entry `regions` of the copy is the source list itself
+        ctx.bad('Regions.__copy__', 'aliases-list',
+                'copy.copy(regions) is not defined by the class, so the standard protocol copies the instance dictionary and the '
+                'new Regions object holds the source list itself: D = copy.copy(R); D.append(x) also lengthens R '
+                '(R.copy() and R[:] make a new list)', ci.path)
+    for name, args in (('copy', []), ('__getitem__', [Obj('slice', {}, 'index')])) + (
+            (('__copy__', []),) if m.method(ci, '__copy__') is not None else ()):
         f = method_or_fail(ctx, ci, name)
         ev = evaluator(ctx)
         src = Obj('list', {}, 'self.regions')
